@@ -132,9 +132,17 @@ def c15_4(ctx):
     f = ctx.func(CF, "ChainFinder.meld_new_hashes")
     ws = f.params()[1]
     removals = []
-    for c in df.calls_in(f.node):
-        if isinstance(c.func, ast.Attribute) and norm(c.func.value) == ws and c.func.attr in ("pop", "discard", "remove", "difference_update", "clear", "intersection_update"):
+    body = sym.expanded(ctx, f)             # helpers added since the review are read inside meld_new_hashes: their parameter is an alias of the work set
+    names = {ws}
+    for _round in range(4):
+        for st in ast.walk(body):
+            if isinstance(st, ast.Assign) and len(st.targets) == 1 and isinstance(st.targets[0], ast.Name) and isinstance(st.value, ast.Name) and st.value.id in names:
+                names.add(st.targets[0].id)
+    for c in ast.walk(body):
+        if isinstance(c, ast.Call) and isinstance(c.func, ast.Attribute) and norm(c.func.value) in names and c.func.attr in ("pop", "discard", "remove", "difference_update", "clear", "intersection_update"):
             removals.append(c)
+        elif isinstance(c, ast.AugAssign) and isinstance(c.op, (ast.Sub, ast.BitAnd)) and norm(c.target) in names:
+            removals.append(ast.Call(ast.Attribute(c.target, "difference_update", ast.Load()), [c.value], [], lineno=c.lineno, col_offset=c.col_offset))
     for c in removals:
         ctx.check(c.func.attr == "pop", "work-set-removal:%s" % c.func.attr, ctx.where(f, c),
                   "meld_new_hashes removes an element from the work set with `%s`; elements taken by pop() become the bottom of a path and have descendents_by_top consulted for them, an element removed any other way is never looked up there, "
@@ -142,6 +150,19 @@ def c15_4(ctx):
     ctx.check(any(c.func.attr == "pop" for c in removals), "work-set-pop", ctx.where(f), "meld_new_hashes does not consume the work set by pop()")
     _refcheck(ctx, CF, "ChainFinder.meld_new_hashes", "cf_meld", "meld")
     _refcheck(ctx, CF, "ChainFinder.load_nodes", "cf_load_nodes", "load-dedup")
+    # every hash that is new in a batch goes through the meld, interior nodes of the batch included (same reason): the set handed
+    # to meld_new_hashes is the set load_nodes collected, not a part of it
+    ln = ctx.func(CF, "ChainFinder.load_nodes")
+    wl = sym.walk(ctx, ln)
+    mc = sym.calls_matching(wl, ".meld_new_hashes")
+    if not mc:
+        ctx.undecided("meld-gets-every-new-hash", ctx.where(ln), "load_nodes does not call meld_new_hashes")
+    for e in mc:
+        a = e.call.args[0] if e.call.args else None
+        part = a is not None and ((isinstance(a, ast.BinOp) and isinstance(a.op, (ast.Sub, ast.BitAnd))) or (isinstance(a, ast.Call) and isinstance(a.func, ast.Attribute) and a.func.attr in ("difference", "intersection"))
+                                  or (isinstance(a, (ast.SetComp, ast.ListComp, ast.GeneratorExp)) and any(g.ifs for g in a.generators)))
+        ctx.check(not part, "meld-gets-every-new-hash", ctx.where(ln, e.node), "load_nodes hands `%s` to meld_new_hashes: only a part of the batch's new hashes is melded; a new block that is skipped never has the orphan trees waiting on it joined" % (norm(a)[:80] if a is not None else ""),
+                  sample={"melded": norm(a)[:60] if a is not None else None})
 
 
 # ------------------------------------------------------------------ C15.5
@@ -165,6 +186,35 @@ def c15_5(ctx):
     _refcheck(ctx, BC, "BlockChain.add_headers.iterate", "bc_add_headers_iterate", "header-registration")
     _refcheck(ctx, BC, "BlockChain.is_hash_known", "bc_is_hash_known", "known-definition")
     _refcheck(ctx, BC, "BlockChain.lock_to_index.iterate", "bc_lock_iterate", "rebuild-keeps-all-trees")
+    # `known` is membership in the index map: the truth of an INDEX is no test (the first block of the chain has index 0)
+    kn = ctx.func(BC, "BlockChain.is_hash_known")
+    tf = sym.truth_formula(sym.walk(ctx, kn))
+    tat = [a for a in (gi.f_opaques(tf) if tf not in (True, False) else []) if isinstance(a, str)]
+    falsy_index = [a for a in tat if a.startswith("truthy(") and ("index_for_hash(" in a or "hash_to_index_lookup.get(" in a or "hash_to_index_lookup[" in a)]
+    member = [a for a in tat if " in self.hash_to_index_lookup" in a or " is None" in a]
+    if falsy_index:
+        ctx.bad("known-is-membership", ctx.where(kn), "BlockChain.is_hash_known answers by the truth of `%s`: the block at index 0 has a falsy index and is reported as unknown, so its re-delivery is loaded as a new root" % falsy_index[0][:70])
+    elif member:
+        ctx.ok("known-is-membership", sample={"test": member[0][:70]})
+    else:
+        ctx.undecided("known-is-membership", ctx.where(kn), "BlockChain.is_hash_known decides on %s; this rule reads membership / `is None` tests" % tat[:2])
+    # the finder rebuilt by lock_to_index is seeded from ALL trees of the old one (orphan subtrees still waiting for a parent are
+    # trees too), not from a selection of them
+    lk = ctx.p.functions.get(ctx.func(BC, "BlockChain.lock_to_index").qualname + ".iterate")
+    if lk is None:
+        ctx.undecided("rebuild-from-all-trees", ctx.where(ctx.func(BC, "BlockChain.lock_to_index")), "lock_to_index has no inner generator `iterate`")
+    else:
+        loops = [n for n in ast.walk(sym.expanded(ctx, lk)) if isinstance(n, ast.For)]
+        srcs = [norm(n.iter) for n in loops if "chain_finder" in norm(n.iter)]
+        if not srcs:
+            ctx.undecided("rebuild-from-all-trees", ctx.where(lk), "lock_to_index.iterate does not loop over anything of the old finder")
+        for t in srcs:
+            if "trees_from_bottom" in t:
+                ctx.ok("rebuild-from-all-trees", sample={"rebuilt_from": t[:60]})
+            elif any(k in t for k in ("all_chains_ending_at(", "maximum_path(", "find_ancestral_path(", "descendents_by_top")):
+                ctx.bad("rebuild-from-all-trees", ctx.where(lk), "lock_to_index rebuilds the finder from `%s`: only the trees selected there survive the lock; orphan subtrees still waiting for a missing parent are dropped and can never join the chain" % t[:80])
+            else:
+                ctx.undecided("rebuild-from-all-trees", ctx.where(lk), "lock_to_index rebuilds the finder from `%s`; this rule reads trees_from_bottom / the selecting queries" % t[:80])
 
 
 OBLIGATIONS = [
